@@ -79,6 +79,8 @@ func (d Data) Bytes() []byte {
 type World struct {
 	Files map[string]Data `json:"files"`
 	Dirs  []string        `json:"dirs,omitempty"`
+	// Links are symbolic links: path -> target (relative to the link's directory). Only C14 generates them.
+	Links map[string]string `json:"links,omitempty"`
 }
 
 func NewWorld() *World { return &World{Files: map[string]Data{}} }
@@ -91,6 +93,12 @@ func (w *World) Clone() *World {
 		c.Files[k] = v
 	}
 	c.Dirs = append(c.Dirs, w.Dirs...)
+	for k, v := range w.Links {
+		if c.Links == nil {
+			c.Links = map[string]string{}
+		}
+		c.Links[k] = v
+	}
 	return c
 }
 
@@ -282,6 +290,20 @@ func (sb *Sandbox) materialise(w *World) {
 			machinery("write: %v", err)
 		}
 		_ = os.Chtimes(full, old, old)
+	}
+	links := make([]string, 0, len(w.Links))
+	for p := range w.Links {
+		links = append(links, p)
+	}
+	sort.Strings(links)
+	for _, p := range links {
+		full := filepath.Join(sb.W, p)
+		if err := os.MkdirAll(filepath.Dir(full), 0o755); err != nil {
+			machinery("mkdir: %v", err)
+		}
+		if err := os.Symlink(w.Links[p], full); err != nil {
+			machinery("symlink: %v", err)
+		}
 	}
 }
 
